@@ -17,8 +17,8 @@ from vlib.verdict import Case
 
 PROPERTY = 'C10'
 MANIFEST = {
- 'level_text': 'Lean 4 simulation proof: a reference IRC server Srv (users, channels, members with op/halfop/voice flags, topic, modes, ban lists, hostmasks; multi-prefix, userhost-in-names, extended-join, chghost, WHOX) and a model of irclib.IrcState/ChannelState/Irc.feedMsg nick+prefix bookkeeping are coupled by an invariant that is proved to hold after every finite run of server actions (JOIN/PART/KICK/QUIT/NICK/MODE/TOPIC/NAMES/WHO/CHGHOST/reconnect, multi-target, case-only nick changes, the bot\'s own nick changes), kernel-checked; the mode-argument tables, the rfc1459 case table, the nick setters and the sigil literals are re-extracted from /repo on every run; the bot model is tied to the real irclib by a differential run that compares the full state dump after every single message of generated histories, and the property statement is evaluated on the real Irc against an independent Python reference server.',
- 'level_note': 'Trusted: Lean kernel; axioms propext/Classical.choice/Quot.sound only; harness/extractors/chanstate.py; harness/c10.py (generators, canonical dumps, the Python reference server used as oracle). Modelled and proved: IrcState.addMsg dispatch and doJoin/doPart/doKick/doQuit/doNick/doMode/doTopic/do353/do352/do354/do324/do329/do332/do367/doChghost, ChannelState.addUser/replaceUser/removeUser/doMode, separateModes, isUserHostmask/splitHostmask, isChannel, Irc.feedMsg nick/prefix/nick-setter logic, Irc.doNick, Irc.reset. Case folding is the extracted rfc1459 table; the server is assumed to use rfc1459 casemapping and the CHANMODES classes of the bot\'s tables. Not modelled: ISUPPORT (005) driven chantypes/prefix maps, batches, int() on non-ASCII digits, plugins/callbacks, the messages the bot queues (WHO/MODE) — the server sends the replies unprompted.',
+ 'level_text': 'Lean 4 simulation proof, kernel-checked: a reference IRC server Srv (users, channels, members with op/halfop/voice flags, topic, modes, ban lists, hostmasks; multi-prefix, userhost-in-names, extended-join, chghost, WHOX; names compared under rfc1459 case rules) and a model of irclib.IrcState / ChannelState / the nick+prefix bookkeeping of Irc.feedMsg are coupled by an invariant (own nick; set of joined channels; per channel users, ops, halfops, voices, topic, modes, bans; hostmask of every visible nick; own prefix) that is proved to hold after EVERY finite run of server actions from "just registered" (theorem view_refines_partial, by induction with one lemma per action: JOIN incl. the bot\'s own JOIN with the 332/353/366/354|352/315/324/329/367/368 burst, PART, KICK, QUIT, NICK incl. case-only and the bot\'s own, MODE, TOPIC, NAMES, WHO, CHGHOST, reconnect; multi-target JOIN/PART/KICK); corollaries: own PART / KICK / reconnect remove the channel from the view. The mode-argument tables, the rfc1459 case table, the nick setters and the sigil / mode-letter literals are re-extracted from /repo on every run and the proofs rest on table lemmas about them. The bot model is tied to the real irclib by a differential run that compares the full state dump after every single message of generated histories, and the property statement is evaluated on the real Irc against an independent Python reference server (which is also compared with the Lean Srv, message by message).',
+ 'level_note': 'Trusted: Lean kernel; axioms propext/Classical.choice/Quot.sound only; harness/extractors/chanstate.py; harness/c10.py (generators, canonical dumps, the Python reference server used as oracle). Hypotheses of the theorem: valid configuration, multi-prefix negotiated (without it a NAMES reply shows one status per member; the check then only requires halfops/voices to be a subset), and no mode argument that int() rewrites (known finding C10-mode-arg-int, counter-example proved in Lean). Modelled and proved: IrcState.addMsg dispatch and doJoin/doPart/doKick/doQuit/doNick/doMode/doTopic/do353/do352/do354/do324/do329/do332/do367/doChghost, ChannelState.addUser/replaceUser/removeUser/doMode, separateModes, isUserHostmask/splitHostmask, isChannel, Irc.feedMsg nick/prefix/nick-setter logic, Irc.doNick, Irc.doChghost, Irc.reset. The server is assumed to use rfc1459 casemapping and the CHANMODES classes of the bot\'s tables (b,e,q,I / k / l / flags) and to send CHGHOST only when the capability was negotiated. Not modelled: ISUPPORT (005) driven chantypes / prefix maps, batches, int() on non-ASCII digits, plugins / callbacks, the WHO / MODE requests the bot queues on joining (the server sends the replies unprompted, as one burst), irc.server.',
  'technique': 'Lean 4 proof (simulation with a coupling invariant, induction over runs) + table extraction + differential correspondence',
  'design_ref': 'DESIGN.md §6 C10',
 }
